@@ -46,4 +46,15 @@ def legalLine (l : Str) : Bool :=
   | [] => legalArg w none
   | _ :: rest => legalArg w (some rest)
 
+/-- the words that exist only in DucklingScript (never in Rubber Ducky Script 1.0 / Flipper BadUSB) -/
+def dsOnly : List String :=
+  ["IF", "ELIF", "ELSE", "WHILE", "FUNC", "FUNCTION", "RUN", "VAR", "RETURN", "RET", "BREAKLOOP", "BREAK_LOOP", "CONTINUELOOP",
+   "CONTINUE_LOOP", "CONTINUE", "PRINT", "PASS", "EXIST", "NOTEXIST", "NOT_EXIST", "START", "STARTENV", "STARTCODE", "IGNORE", "FOR",
+   "WHITESPACE"]
+
+/-- an output line whose first word is neither a DucklingScript-only keyword nor `$`-prefixed -/
+def plainLine (l : Str) : Bool :=
+  let w := l.takeWhile (· != ' ')
+  !dsOnly.contains (String.ofList w) && w.head? != some '$'
+
 end Duckling.Spec
